@@ -363,15 +363,17 @@ class CommonRD:
         else:
             proxy_host = None
 
-        # No more errors should fly out from below here, as side effects start now
+        # Side effects start below; the only errors that may still fly out are
+        # those of the Registration constructor, which runs before the old
+        # registration is replaced
 
         try:
             oldreg = self._by_key[key]
         except KeyError:
+            oldreg = None
             path = self._new_pathtail()
         else:
             path = oldreg.path[len(self.entity_prefix) :]
-            oldreg.delete()
 
         # this was the brutal way towards idempotency (delete and re-create).
         # if any actions based on that are implemented here, they have yet to
@@ -397,6 +399,13 @@ class CommonRD:
             proxy_host,
             setproxyremote,
         )
+
+        # Only now that the new registration's parameters were found valid
+        # (the constructor raises BadRequest otherwise) may the old one go
+        if oldreg is not None:
+            oldreg.delete()
+            if proxy_host is not None:
+                setproxyremote(network_remote)
 
         self._by_key[key] = reg
         self._by_path[path] = reg
